@@ -101,7 +101,7 @@ func (r *EngineRunner) flipSweep(cfg []string, maxFlips int, rng *Rng) string {
 	type flip struct {
 		name string
 		off  int
-		mask byte
+		mask byte // 0: the file is truncated to off bytes instead
 	}
 	var flips []flip
 	if total*8 <= maxFlips {
@@ -119,6 +119,19 @@ func (r *EngineRunner) flipSweep(cfg []string, maxFlips int, rng *Rng) string {
 				continue
 			}
 			flips = append(flips, flip{n, rng.Intn(len(files[n])), 1 << uint(rng.Intn(8))})
+		}
+	}
+	// truncations: every data file cut at a few lengths (inside the last record, at a record boundary,
+	// in the middle), applied to the closed directory or while the database is open like the flips
+	truncs := 0
+	for _, n := range names {
+		if !strings.HasSuffix(n, string(datafile.DataFileSuffix)) || len(files[n]) < 2 {
+			continue
+		}
+		sz := len(files[n])
+		for _, cut := range []int{sz - 1, sz / 2, rng.Intn(sz), rng.Intn(sz)} {
+			flips = append(flips, flip{n, cut, 0})
+			truncs++
 		}
 	}
 	opened, openErr, getErr, stale, live := 0, 0, 0, 0, 0
@@ -147,7 +160,9 @@ func (r *EngineRunner) flipSweep(cfg []string, maxFlips int, rng *Rng) string {
 				stale++
 			}
 		}
-		_ = db.Fold(func(key []byte, value []byte) bool {
+		folded := 0
+		ferr := db.Fold(func(key []byte, value []byte) bool {
+			folded++
 			vals, known := allowed[string(key)]
 			ok := false
 			for _, w := range vals {
@@ -160,6 +175,9 @@ func (r *EngineRunner) flipSweep(cfg []string, maxFlips int, rng *Rng) string {
 			}
 			return true
 		})
+		if nk := len(db.ListKeys()); ferr == nil && folded != nk {
+			r.fail("C12", "%s: Fold reports success but delivered %d of the %d keys (unreadable records skipped silently)", what, folded, nk)
+		}
 	}
 	for fi, fl := range flips {
 		root, err := os.MkdirTemp(r.Root, "flip")
@@ -182,8 +200,12 @@ func (r *EngineRunner) flipSweep(cfg []string, maxFlips int, rng *Rng) string {
 		for _, n := range names {
 			b := files[n]
 			if n == fl.name && !whileOpen {
-				b = append([]byte(nil), b...)
-				b[fl.off] ^= fl.mask
+				if fl.mask == 0 {
+					b = b[:fl.off]
+				} else {
+					b = append([]byte(nil), b...)
+					b[fl.off] ^= fl.mask
+				}
 			}
 			_ = os.WriteFile(place(dst, n), b, 0644)
 		}
@@ -191,6 +213,9 @@ func (r *EngineRunner) flipSweep(cfg []string, maxFlips int, rng *Rng) string {
 			_ = os.WriteFile(place(dst, n), b, 0644)
 		}
 		what := fmt.Sprintf("bit %#x of byte %d of %s flipped", fl.mask, fl.off, fl.name)
+		if fl.mask == 0 {
+			what = fmt.Sprintf("%s truncated to %d bytes", fl.name, fl.off)
+		}
 		if whileOpen {
 			what += " while the database is open"
 		}
@@ -216,7 +241,13 @@ func (r *EngineRunner) flipSweep(cfg []string, maxFlips int, rng *Rng) string {
 				if strings.HasPrefix(fl.name, "M/") {
 					target = filepath.Join(dst, fl.name[2:])
 				}
-				if f, err := os.OpenFile(target, os.O_RDWR, 0644); err == nil {
+				if fl.mask == 0 {
+					// a few reads first, so that whatever the engine caches or pools holds earlier contents
+					for _, k := range db.ListKeys() {
+						_, _ = db.Get(k)
+					}
+					_ = os.Truncate(target, int64(fl.off))
+				} else if f, err := os.OpenFile(target, os.O_RDWR, 0644); err == nil {
 					one := []byte{0}
 					if _, err := f.ReadAt(one, int64(fl.off)); err == nil {
 						one[0] ^= fl.mask
@@ -230,5 +261,5 @@ func (r *EngineRunner) flipSweep(cfg []string, maxFlips int, rng *Rng) string {
 		}()
 		_ = os.RemoveAll(root)
 	}
-	return fmt.Sprintf("done # flips=%d bytes=%d opened=%d open_errors=%d get_errors=%d older_value_served=%d flipped_while_open=%d", len(flips), total, opened, openErr, getErr, stale, live)
+	return fmt.Sprintf("done # flips=%d bytes=%d opened=%d open_errors=%d get_errors=%d older_value_served=%d flipped_while_open=%d truncations=%d", len(flips), total, opened, openErr, getErr, stale, live, truncs)
 }
